@@ -17,8 +17,9 @@ RULE = ("for dimension-wise and extend-split configurations (library integrands;
         "and interpolation are compared with the saved object's. distinct = digest(strategy, configuration, k); non-trivial = "
         "interruption point with 0 < k < last evaluation of U")
 RULE += (" Dimension-wise cases additionally stop by a loose TOLERANCE (error against the analytic reference) and continue with a tighter one; the end state is compared with the single run using the tight tolerance.")
+RULE += (" Chains: stop at k1, continue to k2 (optionally via a checkpoint file, optionally a second checkpoint), continue to the end; the intermediate state is compared with a run stopped directly at k2, the end with U including the combined interpolant at 64 points.")
 RULE += (" Half of the checkpoints are written to a path that already holds an older checkpoint of the same run.")
-REQUIRED = ["continue_tighter_tolerance", "continue_structure", "continue_scheme", "continue_result", "continue_points", "restore_identical_result",
+REQUIRED = ["chain_intermediate_state", "chain_final_state", "chain_final_result", "chain_final_interpolation", "continue_tighter_tolerance", "continue_structure", "continue_scheme", "continue_result", "continue_points", "restore_identical_result",
             "restore_identical_interpolation", "restored_continue_structure", "restored_continue_result"]
 MIN_NONTRIVIAL = {"quick": 60, "thorough": 800}
 CHUNK = {"quick": 3, "thorough": 12}
@@ -121,6 +122,65 @@ def tolerance_continuation(case, res, rng, cfg, fname, fac, M):
               "C14_continue_with_tighter_tolerance_result:dimwise", "result after the tolerance continuation differs from the single run", ctx)
 
 
+def chain_continuation(res, rng, strategy, cfg, fname, fac, M, args, pts_u, su, result_u, npts_u, cu, P):
+    """Several interruptions in a row: stop at k1, continue to k2 (optionally through a checkpoint file), continue to the end.
+    The intermediate stop must be the state a direct run stopped at k2 has; the end must be the uninterrupted run's end,
+    including the combined interpolant."""
+    from sparseSpACE.StandardCombi import StandardCombi
+    ks = [k for k in range(len(pts_u) - 1) if k == 0 or pts_u[k] != pts_u[k - 1]]
+    if len(ks) < 2:
+        res.note("too_few_evaluations_for_chain")
+        return
+    k1, k2 = sorted(rng.sample(ks, 2))
+    ctx = {"cfg": cfg, "function": fname, "M": M, "k1": k1, "k2": k2, "points_U": pts_u}
+    cb, eb = build(strategy, cfg, fac())
+    rb = quiet(cb.performSpatiallyAdaptiv, errorOperator=eb, max_evaluations=pts_u[k2] - 1, **args)
+    if len(rb[6]) - 1 != k2:
+        res.note("chain_direct_run_stopped_elsewhere")
+        return
+    ca, ea = build(strategy, cfg, fac())
+    quiet(ca.performSpatiallyAdaptiv, errorOperator=ea, max_evaluations=pts_u[k1] - 1, **args)
+    obj = ca
+    via_file = rng.random() < 0.5
+    if via_file:
+        path = os.path.join(os.getcwd(), "c14_chain_%d.dill" % rng.randrange(10 ** 6))
+        quiet(ca.save_to_file, path)
+        obj = StandardCombi.restore_from_file(path)
+        os.remove(path)
+    r2 = quiet(obj.continue_adaptive_refinement, tol=-1.0, max_evaluations=pts_u[k2] - 1)
+    suffix = ":" + strategy + (":via_file" if via_file else "")
+    sb, s2 = state(strategy, cb), state(strategy, obj)
+    scale_b = max(1e-300, float(np.max(np.abs(np.array(rb[3], dtype=float)))))
+    res.check("chain_intermediate_state", s2 == sb and obj.get_total_num_points() == cb.get_total_num_points(),
+              "C14_chain_intermediate_state_differs" + suffix,
+              "stopped at evaluation %d and continued with the limits of evaluation %d: structure/scheme/points differ from the run "
+              "stopped directly at evaluation %d (%d vs %d points)" % (k1, k2, k2, obj.get_total_num_points(), cb.get_total_num_points()), ctx)
+    # extend-split: the result after continue_adaptive_refinement is the known finding F6 (same call site, same mechanism)
+    known_sig = ("C14_restored_continue_result_differs:extsplit" if via_file else "C14_continue_result_differs:extsplit")
+    res.close("chain_intermediate_result", np.array(r2[3], dtype=float), np.array(rb[3], dtype=float), 1e-11 * scale_b,
+              known_sig if strategy == "extsplit" else "C14_chain_intermediate_result_differs" + suffix, "result at the intermediate stop differs from the direct run", ctx)
+    if via_file and rng.random() < 0.5:
+        path = os.path.join(os.getcwd(), "c14_chain2_%d.dill" % rng.randrange(10 ** 6))
+        quiet(obj.save_to_file, path)
+        obj = StandardCombi.restore_from_file(path)
+        os.remove(path)
+        res.count("chain_second_checkpoint")
+    r3 = quiet(obj.continue_adaptive_refinement, tol=-1.0, max_evaluations=M)
+    s3 = state(strategy, obj)
+    scale = max(1e-300, float(np.max(np.abs(result_u))))
+    res.check("chain_final_state", s3 == su and obj.get_total_num_points() == npts_u, "C14_chain_final_state_differs" + suffix,
+              "two interruptions (%d, %d): final structure/scheme/points differ from the uninterrupted run (%d vs %d points)"
+              % (k1, k2, obj.get_total_num_points(), npts_u), ctx)
+    res.close("chain_final_result", np.array(r3[3], dtype=float), result_u, 1e-11 * scale,
+              known_sig if strategy == "extsplit" else "C14_chain_final_result_differs" + suffix,
+              "two interruptions: final result differs from the uninterrupted run", ctx)
+    # the combined interpolant of the continued object equals that of the uninterrupted one (evaluated last: __call__ fills caches)
+    vu, vc = np.asarray(quiet(cu, P), dtype=float), np.asarray(quiet(obj, P), dtype=float)
+    sc = max(1e-300, float(np.max(np.abs(vu))))
+    res.close("chain_final_interpolation", vc, vu, 1e-10 * sc, "C14_chain_final_interpolation_differs" + suffix,
+              "interpolant of the twice-continued object differs from the uninterrupted run's", ctx)
+
+
 def run_case(case, res):
     from sparseSpACE.StandardCombi import StandardCombi
     rng = random.Random(case["seed"])
@@ -208,6 +268,7 @@ def run_case(case, res):
             if 0 < k:
                 res.states.add(digest([strategy, cfg, k, variant]))
         trace.append(k)
+    chain_continuation(res, rng, strategy, cfg, fname, fac, M, args, pts_u, su, result_u, npts_u, cu, P)
     if strategy == "dimwise":
         tolerance_continuation(case, res, rng, cfg, fname, fac, M)
     res.hash = digest([strategy, cfg, fname, M])
